@@ -73,7 +73,7 @@ theorem applyCm_full (b : Batch) (e : Event) : (applyCm b e).full = b.full := by
   · rfl
 
 theorem applyCm_gNew (b : Batch) (e : Event) :
-    (applyCm b e).gNew = if setsCm true e then e.data else b.gNew := by
+    (applyCm b e).gNew = if setsCm true e then some (e.data.getD 0) else b.gNew := by
   unfold applyCm setsCm
   by_cases hk : e.kind = .cm
   · by_cases ht : e.typ = .create ∨ e.typ = .update
@@ -89,7 +89,7 @@ theorem applyCm_gNew (b : Batch) (e : Event) :
   · simp [hk]
 
 theorem applyCm_tNew (b : Batch) (e : Event) :
-    (applyCm b e).tNew = if setsCm false e then e.data else b.tNew := by
+    (applyCm b e).tNew = if setsCm false e then some (e.data.getD 0) else b.tNew := by
   unfold applyCm setsCm
   by_cases hk : e.kind = .cm
   · by_cases ht : e.typ = .create ∨ e.typ = .update
@@ -140,13 +140,13 @@ theorem apply_full (b : Batch) (e : Event) : (apply b e).full = (b.full || force
   · rename_i h; simp [applyCm_full, h]
 
 theorem apply_gNew (b : Batch) (e : Event) :
-    (apply b e).gNew = if setsCm true e then e.data else b.gNew := by
+    (apply b e).gNew = if setsCm true e then some (e.data.getD 0) else b.gNew := by
   unfold apply; split
   · rename_i h; simp [setsCm_generic true e h]
   · exact applyCm_gNew b e
 
 theorem apply_tNew (b : Batch) (e : Event) :
-    (apply b e).tNew = if setsCm false e then e.data else b.tNew := by
+    (apply b e).tNew = if setsCm false e then some (e.data.getD 0) else b.tNew := by
   unfold apply; split
   · rename_i h; simp [setsCm_generic false e h]
   · exact applyCm_tNew b e
@@ -165,9 +165,9 @@ def fresh (g t : Option Nat) : Batch := { gCur := g, tCur := t }
 theorem accum_snoc (b : Batch) (e : Event) (w : List Event) :
     accum b (w ++ [e]) = apply (accum b w) e := by simp [accum, List.foldl_append]
 
-/-- the `…New` a window leaves: data of the last event that sets it -/
+/-- the `…New` a window leaves: data of the last event that sets it (nil data = empty data) -/
 def newData (g : Bool) (init : Option Nat) (w : List Event) : Option Nat :=
-  w.foldl (fun cur e => if setsCm g e then e.data else cur) init
+  w.foldl (fun cur e => if setsCm g e then some (e.data.getD 0) else cur) init
 
 theorem accum_gCur (w : List Event) : ∀ b, (accum b w).gCur = b.gCur := by
   induction w with
@@ -272,11 +272,11 @@ theorem nodup_accum_objects (w : List Event) : ∀ b, b.objects.Nodup → (accum
 theorem newData_eq_last (g : Bool) (init : Option Nat) (w : List Event) :
     newData g init w = match (w.filter (setsCm g)).getLast? with
       | none => init
-      | some e => e.data := by
+      | some e => some (e.data.getD 0) := by
   suffices h : ∀ (w' : List Event) (init : Option Nat),
       newData g init w'.reverse = match (w'.reverse.filter (setsCm g)).getLast? with
         | none => init
-        | some e => e.data by
+        | some e => some (e.data.getD 0) by
     have := h w.reverse init
     simpa using this
   intro w'
